@@ -82,6 +82,15 @@ PAIRS = [
     ("keepdims", "max", "[a] b [c]", "([a]) b ([c])", [(2, 3, 4)], {"keepdims": True}, {}),
     ("keepdims", "mean", "a [b c]", "a [b c] -> a 1", [(2, 3, 4)], {"keepdims": True}, {}),
     ("keepdims", "sum", "a [b] [c]", "a ([b]) ([c])", [(2, 3, 4)], {"keepdims": True}, {}),
+    ("keepdims", "mean", "a [b] c", "a ([b]) c", [(2, 3, 4)], {"keepdims": True}, {}),
+    ("keepdims", "var", "a [b] c", "a ([b]) c", [(2, 3, 4)], {"keepdims": True}, {}),
+    ("keepdims", "std", "a [b] c", "a ([b]) c", [(2, 3, 4)], {"keepdims": True}, {}),
+    ("keepdims", "prod", "a [b] c", "a ([b]) c", [(2, 3, 4)], {"keepdims": True}, {}),
+    ("keepdims", "count_nonzero", "a [b] c", "a ([b]) c", [(2, 3, 4)], {"keepdims": True}, {}),
+    ("keepdims", "any", "a [b] c", "a ([b]) c", [(2, 3, 4)], {"keepdims": True}, {}),
+    ("keepdims", "all", "a [b] c", "a ([b]) c", [(2, 3, 4)], {"keepdims": True}, {}),
+    ("keepdims", "min", "a [b] c", "a ([b]) c", [(2, 3, 4)], {"keepdims": True}, {}),
+    ("keepdims", "logsumexp", "a [b] c", "a ([b]) c", [(2, 3, 4)], {"keepdims": True}, {}),
     # 10 a length-1 coordinate bracket in get_at / argmax = no bracket
     ("unit coordinate bracket", "get_at", "[a] b, c [1] -> b c", "[a] b, c -> b c", [(3, 2), "idx:4,1:3"], {}, {"__squeeze_in__": 1}),
     ("unit coordinate bracket", "get_at", "a [b], a p [1] -> a p", "a [b], a p -> a p", [(2, 4), "idx:2,3,1:4"], {}, {"__squeeze_in__": 1}),
@@ -95,6 +104,8 @@ PAIRS = [
     # 12 einx.rearrange = einx.id
     ("rearrange", "rearrange", "a (b c) -> c b a", "a (b c) -> c b a", [(2, 6)], {"b": 2}, {"b": 2}),
     ("rearrange", "rearrange", "a b, c -> ((a b) + c)", "a b, c -> ((a b) + c)", [(2, 3), (4,)], {}, {}),
+    ("rearrange", "rearrange", "a (b c) -> c b a", "a (b c) -> c b a", [(2, 6)], {"b": 2, "graph": True}, {"b": 2, "graph": True}),
+    ("rearrange", "rearrange", "a b -> b a", "a b -> b a", [(2, 3)], {"graph": True}, {"graph": True}),
 ]
 
 
@@ -113,6 +124,8 @@ def same(a, b):
         return False
     if a[0] == "ok":
         x, y = a[1], b[1]
+        if isinstance(x, str) or isinstance(y, str):   # graph=True: the generated texts must be identical
+            return isinstance(x, str) and isinstance(y, str) and x == y
         if isinstance(x, (list, tuple)) != isinstance(y, (list, tuple)):
             return False
         xs, ys = (x, y) if isinstance(x, (list, tuple)) else ([x], [y])
